@@ -64,7 +64,7 @@ def gen_interp(rng):
     ts = [t0]
     for _ in range(n - 1):
         ts.append(ts[-1] + abs(gen_q(rng, dy)) + Fraction(1, 8))
-    kind = rng.choice(["scalar", "scalar", "array", "array", "array_eq", "2d", "2d_eq"])
+    kind = rng.choice(["scalar", "scalar", "array", "array", "array_eq", "2d", "2d_eq", "array_near", "2d_near"])
     ncol = rng.randint(1, 3) if kind.startswith("2d") else 1
     cols = [[gen_q(rng, dy) for _ in range(n)] for _ in range(ncol)]
 
@@ -86,6 +86,12 @@ def gen_interp(rng):
         tq = [qpoint()]
     elif kind in ("array_eq", "2d_eq"):
         tq = list(ts)
+    elif kind in ("array_near", "2d_near"):
+        # as many query points as knots, each a hair (2^-30) away from its knot: still not the knots
+        tiny = Fraction(1, 2 ** 30)
+        tq = [t + rng.choice([tiny, -tiny, 0]) for t in ts]
+        if all(a == b for a, b in zip(tq, ts)):
+            tq[-1] = ts[-1] + tiny
     else:
         tq = [qpoint() for _ in range(rng.randint(1, 5))]
     return {"k": "interp", "kind": kind, "mode": rng.randint(0, 2), "ts": [fx(x) for x in ts],
@@ -145,7 +151,7 @@ def interp_impl(case):
             r = interp(obj, tq[0], ts, cols[0], fl, fr, case["mode"])
             out = [8] + ser_x(r)
             flat = [r]
-        elif kind in ("array", "array_eq"):
+        elif kind in ("array", "array_eq", "array_near"):
             fs = cols[0]
             r = interp(obj, np.array(tq), ts, fs, fl, fr, case["mode"])
             aliased = np.shares_memory(r, fs)
@@ -181,7 +187,7 @@ def interp_term(case):
     fl, fr = gfill(case["fl"]), gfill(case["fr"])
     if case["kind"] == "scalar":
         return "ser_res_x (interp_scalar %s %s %s %s %s %s)" % (m, ts, cols[0], fl, fr, tq[0])
-    if case["kind"] in ("array", "array_eq"):
+    if case["kind"] in ("array", "array_eq", "array_near"):
         return "ser_res_l (interp_array %s %s %s %s %s %s)" % (m, ts, cols[0], fl, fr, glist(tq))
     return "ser_res_ll (interp_2d %s %s %s %s %s %s)" % (m, ts, glist(cols), fl, fr, glist(tq))
 
@@ -255,7 +261,7 @@ def model_vals(case, ser):
 
     if case["kind"] == "scalar":
         return [rd()]
-    if case["kind"] in ("array", "array_eq"):
+    if case["kind"] in ("array", "array_eq", "array_near"):
         n = next(it)
         return [rd() for _ in range(n)]
     nc = next(it)
@@ -318,10 +324,17 @@ def gen_bnd(rng, ctxshape):
             tt = tt[:-1] if len(tt) > 1 else tt
         elif rng.random() < 0.12:
             tt = [str(F(x) + 1) for x in tt]
+        elif rng.random() < 0.15 and len(tt) > 1:
+            # same length, same first stamp, one other stamp moved: still incompatible time stamps
+            j = rng.randrange(1, len(tt))
+            tt[j] = str(F(tt[j]) + Fraction(1, 4))
         return ["ts", tt, [gen_x(rng) for _ in tt]]
     tt = list(times)
     if rng.random() < 0.1:
         tt = [str(F(x) + 1) for x in tt]
+    elif rng.random() < 0.12 and len(tt) > 1:
+        j = rng.randrange(1, len(tt))
+        tt[j] = str(F(tt[j]) + Fraction(1, 4))
     kk = k if rng.random() < 0.85 else k + 1
     return ["ts2", tt, [[gen_x(rng) for _ in range(kk)] for _ in tt]]
 
